@@ -272,7 +272,11 @@ def dryrun_window(cfg, rng, res):
         w, wm = make_writer(cfg, dst)
         mode = rng.choice(['putData_dryRun', 'compile_dryRun', 'compile_dryRun', 'compile_noWrites'])
         texts = dict((b, orch.base_text(b)) for b in orch.BASE)
-        texts['AA-MIB'] = orch.module_text('AA-MIB', [], 's0')
+        # two or three modules are generated by the one call: every one of them is a dry run
+        deps = rng.choice([[], ['BB-MIB'], ['BB-MIB', 'CC-MIB']])
+        texts['AA-MIB'] = orch.module_text('AA-MIB', deps, 's0')
+        for dmod in deps:
+            texts[dmod] = orch.module_text(dmod, [], 's0')
         with fsmon.Watch(base) as wt:
             if mode == 'putData_dryRun':
                 w.putData(cfg['name'], payload(rng, cfg['size'], cfg['alphabet']), dryRun=True)
